@@ -16,7 +16,8 @@ import fcntl, hashlib, json, os, re, shutil, subprocess, tempfile, threading, ti
 from vlib import *
 
 HERE = Path(__file__).resolve().parent
-NJOBS = 12
+# parallelism of the in-process workers / mlr runs; VERIF_JOBS overrides (the coordinator measures on an idle machine)
+NJOBS = max(1, int(os.environ.get("VERIF_JOBS", "4") or 4))
 
 # ---------------------------------------------------------------------------------------------------------------
 # instrumented build
@@ -324,7 +325,7 @@ def bif_oracle(ctx, mats):
                 break
         return cls, e, None, tried
     with ctx.timed("bif_cli_confirm"):
-        with cf.ThreadPoolExecutor(8) as ex:
+        with cf.ThreadPoolExecutor(min(8, NJOBS)) as ex:
             results = list(ex.map(confirm, sorted(by_class.items())))
     for cls, e, hit, tried in results:
         ctx.count(("bif-class", cls))
@@ -547,7 +548,7 @@ def reader_part(ctx, exe):
         return c, c18_classify(st, err), st, err
     seen_cls = set()
     with ctx.timed("reader_cli"):
-        with cf.ThreadPoolExecutor(8) as ex:
+        with cf.ThreadPoolExecutor(min(8, NJOBS)) as ex:
             confirmed = list(ex.map(cli, suspects[:24]))
             tied = list(ex.map(cli, sample))
     mism = [(c, k) for c, k, st, err in tied if k != c["class"]]
@@ -599,7 +600,7 @@ def special_inputs(ctx):
             st, out, err = run_cli(ctx, r[2], b"", timeout=8, max_out=30_000_000)
             return r, c18_classify(st, err), st, len(out), err
         with ctx.timed("special_inputs"):
-            with cf.ThreadPoolExecutor(8) as ex:
+            with cf.ThreadPoolExecutor(min(8, NJOBS)) as ex:
                 results = list(ex.map(go, runs))
         summary = {}
         for (fmt, what, args), k, st, nout, err in results:
@@ -785,7 +786,7 @@ def dsl_part(ctx, exe):
         # run against one record and the end block; -n would skip the main block
         reqs.append({"id": i, "args": ["put", p], "stdin": rec})
         ctx.dist("dsl:" + kind.split("+")[0])
-    groups = [reqs[i::NJOBS * 2] for i in range(NJOBS * 2)]
+    groups = [reqs[i::NJOBS] for i in range(NJOBS)]
     with ctx.timed("dsl_inproc"):
         res = inproc_many(exe, [g for g in groups if g], timeout_ms=8000)
     tally, suspects = {}, []
@@ -804,7 +805,7 @@ def dsl_part(ctx, exe):
         return s, c18_classify(st, err), st, err
     sample = [(k, p, "x") for k, p in cases[: 10 if ctx.tier == "quick" else 200]]
     with ctx.timed("dsl_cli"):
-        with cf.ThreadPoolExecutor(8) as ex:
+        with cf.ThreadPoolExecutor(min(8, NJOBS)) as ex:
             confirmed = list(ex.map(cli, suspects[:30]))
             tied = list(ex.map(cli, sample))
     mism = 0
